@@ -283,3 +283,23 @@ Proof.
   split; [reflexivity|]. split; [vm_compute; reflexivity|].
   intros H. apply batch_code_spec in H. vm_compute in H. discriminate.
 Qed.
+
+(* ---------------- strategy resolution ---------------- *)
+Lemma resolve_label_precedence s c :
+  nc_l_cpu_kind c = 1 -> nc_l_mem_kind c = 1 ->
+  s_cpu_reclaim (resolve_strategy s c) = ratio_label_pct (nc_l_cpu c) /\
+  s_mem_reclaim (resolve_strategy s c) = ratio_label_pct (nc_l_mem c).
+Proof.
+  intros H1 H2. unfold resolve_strategy. cbn [s_cpu_reclaim s_mem_reclaim]. rewrite H1, H2.
+  split; reflexivity.
+Qed.
+
+Lemma resolve_bad_annotation_ignored s c :
+  (nc_anno c =? 1) = false ->
+  resolve_strategy s c
+  = resolve_strategy s (mkNodeCfg 0 (-1) (-1) (-1) (-1) (nc_l_cpu_kind c) (nc_l_cpu c) (nc_l_mem_kind c) (nc_l_mem c)).
+Proof.
+  intros H. unfold resolve_strategy.
+  cbn [nc_anno nc_a_cpu_reclaim nc_a_mem_reclaim nc_a_cpu_thr nc_a_mem_thr nc_l_cpu_kind nc_l_cpu nc_l_mem_kind nc_l_mem].
+  rewrite H. change (0 =? 1) with false. reflexivity.
+Qed.
